@@ -85,6 +85,7 @@ class World:
         self.faulted = None
         self.dead = False
         self.sched = Sched()
+        self.open_files = []
         self.interned = []  # [(kind, key)] -> id index
         self.commit_seq = 0
 
@@ -248,6 +249,9 @@ class World:
             raise IsADirectoryError(errno.EISDIR, "Is a directory", dst)
         if self.mutate("replace", dst, d, step=False):
             self.files[d] = self.files.pop(s)
+            for f in self.open_files:  # an open file keeps writing to the same inode under its new name
+                if f.p == s and not f.closed:
+                    f.p = d
 
     def rmtree(self, path):
         p = self.resolve(path)
@@ -276,7 +280,9 @@ class World:
                 raise IsADirectoryError(errno.EISDIR, "Is a directory", path)
             if self.mutate("truncate", path, p, step=False):
                 self.files[p] = b""
-            return MFile(self, path, p, binary, True)
+            f = MFile(self, path, p, binary, True)
+            self.open_files.append(f)
+            return f
         p = self.resolve(path)
         if p in self.dirs:
             self.access("read-failed", path, p)  # open() of a directory: nothing is read
@@ -314,6 +320,7 @@ class MFile:
     def __init__(self, world, raw, norm, binary, writing):
         self.w, self.raw, self.p, self.binary, self.writing = world, raw, norm, binary, writing
         self.closed = False
+        self.buf = []  # Python file objects are buffered: data reaches the file at flush()/close()
 
     def __enter__(self):
         return self
@@ -322,14 +329,22 @@ class MFile:
         self.close()
         return False
 
+    def flush(self):
+        buf, self.buf = self.buf, []
+        for chunk in buf:  # one mutation per chunk: every prefix of the data is a possible crash state
+            if self.w.mutate("append", self.raw, self.p):
+                # writes go to the open FILE (inode), wherever a rename has moved it meanwhile
+                self.w.files[self.p] = self.w.files.get(self.p, b"") + chunk
+
     def close(self):
-        self.closed = True
+        if not self.closed:
+            self.closed = True
+            self.flush()
 
     def write(self, chunk):
         if not self.binary:
             chunk = chunk.encode("utf-8")
-        if self.w.mutate("append", self.raw, self.p):
-            self.w.files[self.p] = self.w.files.get(self.p, b"") + chunk
+        self.buf.append(chunk)
         return len(chunk)
 
     def writelines(self, chunks):
@@ -406,6 +421,47 @@ class _Path:
         if head and head != "/" * len(head):
             head = head.rstrip("/")
         return head, tail
+
+
+def _norm(p):
+    return MPosixpath.normpath(p)
+
+
+def _realpath(p, *a, **k):
+    """No symbolic links in the model (A5): realpath is lexical normalisation of the absolute path."""
+    if not p.startswith("/"):
+        p = "/cwd/" + p
+    n = _norm(p)
+    return "/" + n.lstrip("/") if n.startswith("//") else n
+
+
+def _commonprefix(m):
+    """genericpath.commonprefix: CHARACTER-wise common prefix (as in the stdlib)."""
+    if not m:
+        return ""
+    s1, s2 = min(m), max(m)
+    for i, c in enumerate(s1):
+        if c != s2[i]:
+            return s1[:i]
+    return s1
+
+
+def _relpath(path, start="."):
+    a = [x for x in _realpath(path).split("/") if x]
+    b = [x for x in _realpath(start).split("/") if x]
+    i = 0
+    while i < len(a) and i < len(b) and a[i] == b[i]:
+        i += 1
+    rel = [".."] * (len(b) - i) + a[i:]
+    return "/".join(rel) if rel else "."
+
+
+_Path.realpath = staticmethod(_realpath)
+_Path.abspath = staticmethod(_realpath)
+_Path.normpath = staticmethod(_norm)
+_Path.commonprefix = staticmethod(_commonprefix)
+_Path.relpath = staticmethod(_relpath)
+_Path.isabs = staticmethod(lambda p: p.startswith("/"))
 
 
 class MOS:
@@ -531,6 +587,9 @@ class Tree:
 
     def __delitem__(self, name):
         del self._entries[name]
+
+    def add(self, name, mode, hexsha):
+        self._entries[name] = (mode, hexsha)
 
     def __contains__(self, name):
         return name in self._entries
